@@ -93,7 +93,12 @@ def check_counts(bdd, ledger, terminal_extra=1):
 def check_cache(bdd, den):
     """Every computed-table entry mentions live nodes and is right."""
     n = den.n
-    for (g, u, v), r in bdd._ite_table.items():
+    for key, r in bdd._ite_table.items():
+        # `(predicate, then, else) |-> edge`, all four of them edges
+        require(isinstance(key, tuple) and len(key) == 3 and
+                all(isinstance(x, int) for x in key + (r,)),
+                'cache.malformed_entry', dict(key=repr(key)[:80]))
+        g, u, v = key
         for x in (g, u, v, r):
             require(abs(x) in bdd._succ, 'cache.dead_node',
                     dict(entry=(g, u, v, r), node=x))
